@@ -8,16 +8,16 @@ TARGETS = {
 PROP = {
     "subchecks": [
         {"target": "c12_http_fuzz", "sub": "parser_total", "dict": "harness/C12/http.dict",
-         "quick": {"runs": 120000, "max_len": 700, "workers": 4, "unit_timeout": 60},
+         "quick": {"runs": 70000, "max_len": 700, "workers": 4, "unit_timeout": 60},
          "thorough": {"runs": 1000000, "max_len": 1200, "workers": 4, "unit_timeout": 60}},
         {"target": "c12_http_rc", "sub": "parser_total", "env": {"ASAN_OPTIONS": _ASAN},
-         "quick": {"cases": 40000, "max_size": 100, "workers": 2},
+         "quick": {"cases": 25000, "max_size": 100, "workers": 2},
          "thorough": {"cases": 1200000, "max_size": 100, "workers": 3}},
         {"target": "c12_http_rc", "sub": "segmentation", "env": {"ASAN_OPTIONS": _ASAN},
-         "quick": {"cases": 15000, "max_size": 100, "workers": 4},
+         "quick": {"cases": 9000, "max_size": 100, "workers": 4},
          "thorough": {"cases": 500000, "max_size": 100, "workers": 4}},
         {"target": "c12_http_rc", "sub": "pipeline", "env": {"ASAN_OPTIONS": _ASAN},
-         "quick": {"cases": 3000, "max_size": 100, "workers": 6, "case_alarm": 120},
+         "quick": {"cases": 2000, "max_size": 100, "workers": 6, "case_alarm": 120},
          "thorough": {"cases": 120000, "max_size": 100, "workers": 5, "case_alarm": 300}},
     ],
     "assumptions": [
